@@ -18,16 +18,16 @@ pub fn def() -> PropDef {
             "TenPow_Lt20", "TenPow_Lt590", "TenPow_Recursive", "Digits_Zero", "Digits_EstimateExact", "Digits_Corrected",
             "Norm_Zero", "Norm_Trim", "WithScale_Up", "WithPrec_Pad", "Tows_UpU64", "Tows_UpBig", "Wsr_Extend",
         ],
-        rule: "exhaustive: 10^k, 10^k - 1, 10^k + 1 for every k in 0..K (K = 5000; 1200 in the quick tier) both signs, and every unscaled value with up to 5 digits (3 in the quick tier) at scales -6..6; seeded decimals up to 5000 digits with 0..5000 trailing zeros, values around 2^64 / 2^128 / 10^19 / 10^38, scale and precision extensions by 0..5000 (incl. 19, 20, 255..257, 589..591). Every value through new / from_bigint / from_biguint / From<(T, i64)>, digits, sign, fractional_digit_count, as_bigint_and_exponent, as_bigint_and_scale, into_bigint_and_exponent, into_bigint_and_scale, to_ref and the reference accessors (to_owned, to_owned_with_scale, count_digits, sign, fractional_digit_count, is_zero, clone_into, abs, neg), upward with_scale / with_scale_round / with_prec / with_precision_round, normalized; oracle: digit count from the decimal string, extension = exact power of ten, normalized = equal value without trailing zero digit (zero => (0,0)), equal values => identical normalized parts. distinct = distinct decimals; non-trivial = non-zero",
+        rule: "exhaustive: 10^k, 10^k - 1, 10^k + 1 for every k in 0..K (K = 5000 in both tiers) both signs, and every unscaled value with up to 5 digits (4 in the quick tier) at scales -6..6; seeded decimals up to 5000 digits with 0..5000 trailing zeros, values around 2^64 / 2^128 / 10^19 / 10^38, scale and precision extensions by 0..5000 (incl. 19, 20, 255..257, 589..591). Every value through new / from_bigint / from_biguint / From<(T, i64)>, digits, sign, fractional_digit_count, as_bigint_and_exponent, as_bigint_and_scale, into_bigint_and_exponent, into_bigint_and_scale, to_ref and the reference accessors (to_owned, to_owned_with_scale, count_digits, sign, fractional_digit_count, is_zero, clone_into, abs, neg), upward with_scale / with_scale_round / with_prec / with_precision_round, normalized; oracle: digit count from the decimal string, extension = exact power of ten, normalized = equal value without trailing zero digit (zero => (0,0)), equal values => identical normalized parts. distinct = distinct decimals; non-trivial = non-zero",
     }
 }
 
 fn plan(tier: Tier) -> Vec<Unit> {
     match tier {
         Tier::Quick => {
-            let mut v = crate::util::split_budget("pow10", 1_201, 20);
-            v.extend(crate::util::split_budget_param("small", 2 * 1000 - 1, 50, 1000));
-            v.extend(crate::util::split_budget("random", 12_000, 300));
+            let mut v = crate::util::split_budget("pow10", 5_001, 20);
+            v.extend(crate::util::split_budget_param("small", 2 * 10_000 - 1, 200, 10_000));
+            v.extend(crate::util::split_budget("random", 60_000, 600));
             v
         }
         Tier::Thorough => {
@@ -60,7 +60,7 @@ fn run_unit(unit: &Unit, r: &mut Rng, ctx: &mut Ctx) {
                 }
             }
             if unit.start == 0 {
-                ctx.exhaustive_notes.push("C18: 10^k, 10^k-1, 10^k+1 for every k in the tier's range (0..1200 quick, 0..5000 thorough), both signs".into());
+                ctx.exhaustive_notes.push("C18: 10^k, 10^k-1, 10^k+1 for every k in the tier's range (0..5000), both signs".into());
             }
         }
         "small" => {
